@@ -45,6 +45,14 @@ def strategy(kind):
             m['site'] += draw(st.sampled_from([0, 0, 0, 1, 2, 5]))
         for e in spec['extras']:
             e['pos'] = min(e['pos'], 69000)
+        fwd = [m for m in spec['mols'] if not m['rev']]
+        if kind == 'iterator' and len(spec['contigs']) > 1 and fwd and draw(st.integers(0, 3)) == 0:
+            # a read pair whose mates lie on different contigs (the mate iterator hands its mates over one at a time): its R2
+            # starts exactly where the R1 of a forward molecule of the same cell and UMI starts, on the other strand
+            m = fwd[draw(st.integers(0, len(fwd) - 1))]
+            start = m['site'] if spec['method'] == 'nla' else m['site'] + 1
+            spec['extras'].append({'kind': 'cross_contig', 'tid': 1 - m['tid'] if len(spec['contigs']) == 2 else (m['tid'] + 1) % len(spec['contigs']),
+                                   'tid2': m['tid'], 'pos': start, 'rev': True, 'cell': m['cell'], 'umi': m['umi']})
         method = spec['method']
         run = {'method': method, 'hamming': draw(st.sampled_from([0, 0, 1, 2])),
                'radius': draw(st.sampled_from([0, 0, 3, 10])) if method == 'chic' else 0,
@@ -196,6 +204,11 @@ def eval_iterator(case):
                                     break
                             passes.append(it)
                     for m in itertools.chain.from_iterable(passes):
+                        if plain:
+                            # strand of a fragment: that of its R1, or the opposite of a lone R2's
+                            st_ = {(bool(r.is_reverse) if (r.is_read1 or not r.is_paired) else (not r.is_reverse)) for fr in m for r in fr if r is not None and not r.is_unmapped}
+                            if len(st_) > 1:
+                                out.bad('iterator:plain:molecule-mixes-strands', 'reads %r' % [(r.query_name, r.flag, r.reference_name, r.reference_start) for fr in m for r in fr if r is not None][:6])
                         g = sorted({serial_of(r.query_name, spec['naming']) for fr in m for r in fr if r is not None})
                         is_over = any(r.has_tag('RR') and r.get_tag('RR') == 'overflow' for fr in m for r in fr if r is not None)
                         (overflow if is_over else mols).append(g)
@@ -220,6 +233,30 @@ def eval_iterator(case):
         if run['cap']:
             if any(len(g) > run['cap'] for g in mols):
                 out.bad('iterator:cap-exceeded', 'cap %r sizes %r' % (run['cap'], [len(g) for g in mols]))
+        if run['hamming'] == 0 and not run['cap'] and (plain or run['radius'] > 0):
+            # whatever else is merged, fragments with the identical (cell, contig, strand, site, UMI) belong together
+            where = {}
+            for gi, g in enumerate(mols):
+                for s_ in g:
+                    where[s_] = gi
+            clip_of, idx_ = {}, 1
+            for m_ in spec['mols']:
+                for cp_ in m_['copies']:
+                    clip_of[idx_] = cp_['clip']
+                    idx_ += 1
+            tp = truth_partition(truth, run['method'])
+            crowd = collections.Counter((k_[0], k_[1], k_[2], k_[4]) for k_ in tp)
+            unique = grouping_is_unique(truth, run)
+            for k_, v in tp.items():
+                if plain and (any(clip_of.get(s_, 1) for s_ in v) or crowd[(k_[0], k_[1], k_[2], k_[4])] > 1):
+                    continue      # the plain classes compare aligned start OR end: a soft clip at the cut moves them, and a
+                                  # second class of the same cell / strand / UMI can share an end with some copies (bridging)
+                if not plain and not unique:
+                    continue      # site chains: which molecule a class joins depends on arrival order
+                homes = {where.get(s_) for s_ in v if s_ in where}
+                if len(homes) > 1:
+                    out.bad('iterator:identical-key-class-split:%s' % ('plain' if plain else 'radius'), 'class %r (serials %r) is spread over %d molecules; run %r' % (list(k_), sorted(v), len(homes), run))
+                    break
         if plain:
             out.nontrivial = is_nontrivial(truth)
             out.label('plain fragment classes')
